@@ -19,8 +19,9 @@
 (*                                                                            *)
 (* Field values are abstract tokens.  Every original input k carries its id   *)
 (* k; its outpoint hash / index / sequence / spent amount are 0 when          *)
-(* untouched and 1 when changed; its spent script is the token k (changed:    *)
-(* 10 + k).  Output contents are plain tokens so that two outputs CAN become  *)
+(* untouched and 1 when changed (outpoint hash / index also 2 = null); its    *)
+(* spent script is the token k (changed: 10 + k, or 30 + k = k plus OP_NOP).  *)
+(* Output contents are plain tokens so that two outputs CAN become            *)
 (* equal.                                                                     *)
 EXTENDS Integers, Sequences, FiniteSets, TLC
 
@@ -106,7 +107,12 @@ Verdict(pos) ==
     /\ SamePuzzle(r)                             \* ... made for the puzzle this input now spends
     /\ View(ins, outs, ver, lock, pos, hts[r.unl], svs[r.unl]) = sview[r.unl]
 Verdicts == [pos \in 1..Len(ins) |-> Verdict(pos)]
+\* the number of inputs that are not correctly solved.  An input referring to the null outpoint
+\* inside a transaction with other inputs is an ordinary (hopeless) input and counts.  A coinbase
+\* TRANSACTION - exactly one input, referring to the null outpoint - spends nothing; the property
+\* says nothing about "validating" it, so no history leads there (LooksCoinbase, below).
 BadCount == Cardinality({pos \in 1..Len(ins) : ~Verdict(pos)})
+LooksCoinbase(I) == Len(I) = 1 /\ I[1].oph = 2 /\ I[1].opi = 2
 
 ----------------------------------------------------------------------------
 (* Mutations.  Each is one assignment / list edit on the transaction object.  *)
@@ -125,7 +131,11 @@ Enabled(x) ==
     CASE x.m = "ver" -> x.a = 0 /\ x.b \in {0, 1} /\ x.b # ver
       [] x.m = "lock" -> x.a = 0 /\ x.b \in {0, 1} /\ x.b # lock
       [] x.m \in {"oph", "opi", "seq", "spent_amt"} ->
-             x.a \in Positions /\ x.b \in {0, 1} /\ (x.m = "spent_amt" => ins[x.a].known)
+             \* (oph 2 = the null transaction id, opi 2 = index 0xffffffff: together the null outpoint)
+             x.a \in Positions /\ x.b \in (IF x.m \in {"oph", "opi"} THEN {0, 1, 2} ELSE {0, 1})
+             /\ (x.m = "oph" => ~LooksCoinbase([ins EXCEPT ![x.a].oph = x.b]))
+             /\ (x.m = "opi" => ~LooksCoinbase([ins EXCEPT ![x.a].opi = x.b]))
+             /\ (x.m = "spent_amt" => ins[x.a].known)
              /\ x.b # (CASE x.m = "oph" -> ins[x.a].oph [] x.m = "opi" -> ins[x.a].opi
                          [] x.m = "seq" -> ins[x.a].seq [] OTHER -> ins[x.a].amt)
       [] x.m = "spent_spk" ->   \* to another puzzle (10 + id), to script + OP_NOP (30 + id), or back (id)
@@ -134,7 +144,7 @@ Enabled(x) ==
       [] x.m = "out_amt" -> x.a \in OutPositions /\ x.b \in OutTokens /\ x.b # outs[x.a].amt
       [] x.m = "out_spk" -> x.a \in OutPositions /\ x.b \in OutTokens /\ x.b # outs[x.a].spk
       [] x.m = "ins_insert" -> x.a \in {1, Len(ins) + 1} /\ x.b = 0 /\ inserts < MaxInserts
-      [] x.m = "ins_remove" -> x.a \in Positions /\ x.b = 0 /\ Len(ins) > 1
+      [] x.m = "ins_remove" -> x.a \in Positions /\ x.b = 0 /\ Len(ins) > 1 /\ ~LooksCoinbase(Remove(ins, x.a))
       [] x.m = "ins_swap" -> x.a \in Positions /\ x.b \in Positions /\ x.a < x.b
       [] x.m = "outs_insert" -> x.a \in {1, Len(outs) + 1} /\ x.b \in {3} /\ inserts < MaxInserts
       [] x.m = "outs_remove" -> x.a \in OutPositions /\ x.b = 0
